@@ -41,7 +41,7 @@ InvEntryAgree == \A strict \in BOOLEAN :
 (* C04: load, save, load loses nothing; second save is a no-op (design level) *)
 CycleOK(r) ==
   LET o == r.obj
-      gap == IF r.fmt = "sm" THEN SMObjInGap(o) ELSE SSCObjInGap(o)
+      gap == (IF r.fmt = "sm" THEN SMObjInGap(o) \/ SMExtraGap(o) ELSE SSCObjInGap(o)) \/ ObjCtxGap(o, r.fmt)
       allnotes == r.fmt = "sm" \/ \A j \in DOMAIN o.charts : ChartHasNotes(o.charts[j])
   IN (r.st = "ok" /\ ~gap /\ allnotes) =>
        LET out == IF r.fmt = "sm" THEN SerSM(o) ELSE SerSSC(o)
@@ -66,7 +66,7 @@ InvNamed == \A n \in DOMAIN NameSeq, strict \in BOOLEAN :
 (* what the real load/save/load cycle must produce (S2C for C04) *)
 CycInfo(r) ==
   LET o == r.obj
-      gap == IF r.fmt = "sm" THEN SMObjInGap(o) ELSE SSCObjInGap(o)
+      gap == (IF r.fmt = "sm" THEN SMObjInGap(o) \/ SMExtraGap(o) ELSE SSCObjInGap(o)) \/ ObjCtxGap(o, r.fmt)
       allnotes == r.fmt = "sm" \/ \A j \in DOMAIN o.charts : ChartHasNotes(o.charts[j])
   IN [dom |-> r.st = "ok" /\ ~gap /\ allnotes, fmt |-> r.fmt,
       exp |-> IF r.fmt = "ssc" THEN NormSSC(o) ELSE o]
